@@ -107,6 +107,7 @@ type persist struct {
 
 	// statistics
 	nGets, nGetErrors, nDirty, nClean, nObservations int
+	nPreCancelled, nDisconnects                      int
 	maxHolders                                       int
 	holders                                          map[int]int
 	overlapGets                                      bool
@@ -322,13 +323,37 @@ func (p *persist) liveAdopted() int {
 }
 
 // get performs one MutableProtoStore.Get as actor `name`.
-func (p *persist) get(name string, seq, di int) (statsHandle, error, *callInfo) {
-	ci := &callInfo{parent: name, seq: seq}
-	ctx := context.WithValue(context.Background(), ctxKey{}, ci)
+// mode 0: live context; 1: the context is already cancelled when Get is
+// called; 2: the controller may cancel it at an ISCC seam of the call.
+func (p *persist) get(name string, seq, di, mode int) (statsHandle, error, *callInfo) {
+	ci := &callInfo{parent: name, seq: seq, mode: mode}
+	base, cancel := context.WithCancel(context.Background())
+	defer cancel()
+	ci.cancel = cancel
+	ctx := context.WithValue(base, ctxKey{}, ci)
+	if mode == 1 {
+		ci.gone = true
+		cancel()
+	}
 	h, err := p.mss.Get(ctx, p.digests[di])
 	// All errgroup workers of the call have returned.
 	p.finishCall(ci)
 	return h, err, ci
+}
+
+// pendingDigests counts, from the token model alone, the digests that have
+// released updates which are not in the ISCC, are held by nobody and are not
+// being written: those are waiting in the store's write queue.
+func (p *persist) pendingDigests() int {
+	p.mu.Lock()
+	defer p.mu.Unlock()
+	n := 0
+	for di := 0; di < p.dummy; di++ {
+		if p.holders[di] == 0 && p.livePuts[di] == 0 && len(missingFrom(p.released[di], p.stored[di])) > 0 {
+			n++
+		}
+	}
+	return n
 }
 
 // observe checks what is visible through a handle. The caller holds glock
@@ -370,12 +395,35 @@ func (a *pactor) run() {
 		for s := range appendIn {
 			appendIn[s] = t.Bool(2, 3)
 		}
+		mode := 0
+		if !p.faultFree {
+			// A client that is gone before its request reaches the store,
+			// or that disconnects while the store talks to the ISCC.
+			mode = t.Weighted([]int{6, 1, 1})
+		}
 		p.getsInProgress++
 		if p.getsInProgress > 1 {
 			p.overlapGets = true
 		}
 		p.nGets++
-		h, err, _ := p.get(a.name, op, di)
+		pending := 0
+		if mode == 1 {
+			p.nPreCancelled++
+			pending = p.pendingDigests()
+			if pending > 0 {
+				k.Probe("precancelled_get_while_updates_awaited_writing")
+			}
+		}
+		h, err, ci := p.get(a.name, op, di, mode)
+		if mode == 1 && ci.puts > 0 {
+			k.Probe("precancelled_get_dequeued_dirty_handles")
+		}
+		if mode == 1 && err == nil {
+			k.Probe("precancelled_get_succeeded_without_io")
+		}
+		if mode == 2 && ci.gone {
+			p.nDisconnects++
+		}
 		p.getsInProgress--
 		if err != nil {
 			// A failing Get gives back its reference to an existing
@@ -479,7 +527,7 @@ func (p *persist) drainLoop() {
 			return
 		}
 		p.drainRounds++
-		h, err, ci := p.get("drainer", i, p.dummy)
+		h, err, ci := p.get("drainer", i, p.dummy, 0)
 		k.Yield("drain-got")
 		if p.winding {
 			return
@@ -604,6 +652,8 @@ func (p *persist) finish() {
 	r := p.w.r
 	r.Count("store_gets", p.nGets)
 	r.Count("store_get_errors", p.nGetErrors)
+	r.Count("store_gets_context_already_cancelled", p.nPreCancelled)
+	r.Count("store_gets_client_disconnected_during_io", p.nDisconnects)
 	r.Count("releases_dirty", p.nDirty)
 	r.Count("releases_clean", p.nClean)
 	r.Count("handle_observations", p.nObservations)
